@@ -37,7 +37,7 @@ def meta(tier):
     return dict(bounds=dict(programs=len(PG.programs("quick" if q else "thorough")), statement="every statement (line) of every program",
                             garbage_len="1 (quick) / 1-2", garbage_alphabet=GARBAGE, layouts="garbage on one physical line or continued over two"),
                 assumptions=["free form; garbage characters cannot start any statement and are not comment/directive introducers"],
-                budget_s=300 if q else 1500, unit_budget_s=60 if q else 300, witness_every=5)
+                budget_s=300 if q else 1200, unit_budget_s=60 if q else 300, witness_every=5)
 
 
 def bad_stmt(ctx):
